@@ -239,6 +239,12 @@ func safeWrites(t *rapid.T, k *compKind, ws []Write) []Write {
 			s.m[x.key()] = &x
 		}
 	}
+	if k.name() == "exporters/otlp" {
+		switch s.val("compression") {
+		case "zlib", "deflate", "lz4": // valid for Validate, but the gRPC client refuses them at Start
+			s.del("compression")
+		}
+	}
 	if k == serviceKind {
 		s.set("telemetry::metrics::level", vText("none"), "#base") // no listening prometheus endpoint
 	}
